@@ -37,7 +37,8 @@ const lockRe = `a\.lock\.Lock\(\) defer a\.lock\.Unlock\(\)`
 const closedRe = `if a\.closed \{ return ErrClosed \}`
 
 func boundRe(list string) string {
-	return `if a\.(\w+) > 0 \{ if a\.` + list + `\.Len\(\) >= a\.(\w+) \{ return (\w+) \} \}`
+	// nested form as written today, or the equivalent merged condition
+	return `(?:if a\.(\w+) > 0 \{ if a\.` + list + `\.Len\(\) >= a\.(\w+) \{ return (\w+) \} \}|if a\.(\w+) > 0 && a\.` + list + `\.Len\(\) >= a\.(\w+) \{ return (\w+) \})`
 }
 
 func wakeOf(s string) string {
@@ -56,11 +57,12 @@ func classifyAdd(body, list, push string) (closedFirst bool, bounded bool, wake 
 	a := regexp.MustCompile(`^\{ ` + lockRe + ` ` + closedRe + ` ` + boundRe(list) + tail)
 	b := regexp.MustCompile(`^\{ ` + lockRe + ` ` + boundRe(list) + ` ` + closedRe + tail)
 	c := regexp.MustCompile(`^\{ ` + lockRe + ` ` + closedRe + tail)
-	if m := a.FindStringSubmatch(body); m != nil && m[1] == m[2] {
-		return true, true, wakeOf(m[5]), true
+	same := func(m []string) bool { return m[1] == m[2] && m[4] == m[5] } // the same field on both sides of the bound
+	if m := a.FindStringSubmatch(body); m != nil && same(m) {
+		return true, true, wakeOf(m[8]), true
 	}
-	if m := b.FindStringSubmatch(body); m != nil && m[1] == m[2] {
-		return false, true, wakeOf(m[5]), true
+	if m := b.FindStringSubmatch(body); m != nil && same(m) {
+		return false, true, wakeOf(m[8]), true
 	}
 	if m := c.FindStringSubmatch(body); m != nil {
 		return true, false, wakeOf(m[2]), true
@@ -130,23 +132,29 @@ func LoadListQ(repo, kind string) ListQ {
 	if !ok || !bounded {
 		unk(nm.add)
 	}
-	q.AddClosedFirst, q.AddWake, q.AddPushesBack, q.BoundOnlyIfPositive = cf, wake, ok, ok && bounded
+	q.AddWake, q.AddPushesBack, q.BoundOnlyIfPositive = wake, ok, ok && bounded
+	if ok { // an unrecognised body never changes a behaviour-selecting field (Known=false breaks the tie instead)
+		q.AddClosedFirst = cf
+	}
 	// AddPrior
 	_, pb, pwake, ok := classifyAdd(f.Body(recv, nm.prior), "reqList", "PushFront")
 	if !ok {
 		unk(nm.prior)
 	}
-	q.PriorBounded, q.PriorWake, q.PriorPushesFront = pb, pwake, ok
+	q.PriorWake, q.PriorPushesFront = pwake, ok
+	if ok {
+		q.PriorBounded = pb
+	}
 	if isMQ {
 		cf2, b2, w2, ok2 := classifyAdd(f.Body(recv, nm.addCtrl), "ctrlList", "PushBack")
-		if !ok2 || !b2 || cf2 != cf {
+		if !ok2 || !b2 || cf2 != q.AddClosedFirst {
 			unk(nm.addCtrl)
 		}
 		if w2 != q.AddWake {
 			q.AddWake = mixWake(q.AddWake, w2)
 		}
 		_, pb2, pw2, ok3 := classifyAdd(f.Body(recv, nm.priorCtrl), "ctrlList", "PushFront")
-		if !ok3 || pb2 != pb {
+		if !ok3 || pb2 != q.PriorBounded {
 			unk(nm.priorCtrl)
 		}
 		if pw2 != q.PriorWake {
@@ -183,9 +191,13 @@ func LoadListQ(repo, kind string) ListQ {
 	if !oka || anyChk == "ifCheckClose" || cfa != cf1 {
 		unk("PopAnyway")
 	}
-	q.PopChecksClosed = popChk == "always"
+	if ok1 {
+		q.PopChecksClosed = popChk == "always"
+	}
 	q.AnywayNoClosedTest = oka && anyChk == "never"
-	q.CtrlFirst = cf1
+	if ok1 {
+		q.CtrlFirst = cf1
+	}
 	q.PopTakesFront = ok1 && oka
 	q.WaitLoop = ok1 && oka
 	// Close
